@@ -239,7 +239,7 @@ func genFNSYM(c *Ctx) {
 			}
 		}
 	}
-	n := c.Scale(4000, 400000)
+	n := c.Scale(1000, 200000)
 	for k := 0; k < n; k++ {
 		c.Emit(fmt.Sprintf("fn.sym %d %d %d %d", 3+c.R.Intn(6), c.R.Intn(8), edge8(c.R), edge8(c.R)))
 		m := edgeMoveArgs(c.R)
